@@ -549,6 +549,9 @@ fn gen_wide(p: &mut Prng, id: String) -> FwCase {
             Event::NormalSent => vec![Trans(next, 1.0)],
             Event::Signal => if i % 7 == 0 { vec![Trans((i * 31 + 5) % len, 1.0)] } else { vec![] },
             Event::NormalRecv => if i + 1 == len { vec![Trans(STATE_SIGNAL, 1.0)] } else { vec![] },
+            // long transition lists (12 and 20 entries, more than any blocking factor of the sampling loop)
+            Event::TunnelRecv => if i % 5 == 0 { (0..12).map(|k| Trans((i + 3 * k + 1) % len, 0.0625)).collect() } else { vec![] },
+            Event::PaddingRecv => if i % 11 == 0 { (0..20).map(|k| Trans((i + 7 * k + 2) % len, 0.04)).collect() } else { vec![] },
             _ => vec![],
         });
         st.action = Some(match i % 3 {
@@ -588,6 +591,9 @@ fn gen_wide(p: &mut Prng, id: String) -> FwCase {
         }
         if p.chance(1, 6) {
             evs.push(TriggerEvent::NormalRecv);
+        }
+        if p.chance(1, 3) {
+            evs.push(if p.chance(1, 2) { TriggerEvent::TunnelRecv } else { TriggerEvent::PaddingRecv });
         }
         calls.push((t, evs));
     }
